@@ -82,6 +82,7 @@ Init0 == [ node   |-> Tree0,
            ofd    |-> [i \in OfdIds |-> IF i <= 3 THEN StdOfd ELSE FreeOfd],
            pipe   |-> [q \in PipeIds |-> <<>>],
            cwd    |-> <<>>,
+           lim    |-> -1,
            um     |-> 18,                         \* 022
            disp   |-> [s \in AllSigs |-> "D"],
            mask   |-> {},
@@ -155,9 +156,18 @@ Resolve(St, path, follow) ==
 IsOpen(St, fd) == fd \in FdRange /\ St.fds[fd].o # 0
 OfdOf(St, fd)  == St.ofd[St.fds[fd].o]
 
+\* RLIMIT_NOFILE (soft): "one greater than the maximum value that the system
+\* may assign to a newly-created descriptor" (XSH getrlimit); -1 = never set
+\* by the sequence (then only the bound MaxFd of the model applies).
+LimSet(St)    == St.lim # -1
+Within(St, x) == St.lim = -1 \/ x < St.lim
+
+\* the lowest free descriptor >= min; -2: none below the limit (EMFILE: a
+\* failing call allocates nothing); -1: none within the bound of the model
 LowestFree(St, min) ==
-  LET free == {x \in FdRange : x >= min /\ St.fds[x].o = 0}
-  IN IF free = {} THEN -1 ELSE CHOOSE x \in free : \A y \in free : x <= y
+  LET free == {x \in FdRange : x >= min /\ St.fds[x].o = 0 /\ Within(St, x)}
+  IN IF free # {} THEN CHOOSE x \in free : \A y \in free : x <= y
+     ELSE IF LimSet(St) /\ St.lim <= MaxFd + 1 THEN -2 ELSE -1
 
 FreeOfdId(St) ==
   LET free == {i \in OfdIds : St.ofd[i].t = "free"}
@@ -218,7 +228,7 @@ NewFile(St, c, p, fd, oid) ==
                               !.app = "A" \in c.fl, !.nb = "N" \in c.fl],
              !.fds[fd] = [o |-> oid, cx |-> "E" \in c.fl]]
 
-ApOpen(St, c) ==
+ApOpen0(St, c) ==
   LET excl   == {"C", "X"} \subseteq c.fl
       follow == ~("F" \in c.fl) /\ ~excl
       w      == Resolve(St, c.path, follow)
@@ -231,6 +241,7 @@ ApOpen(St, c) ==
   ELSE IF w.st = "missing" THEN
     IF "C" \notin c.fl THEN Out(RErr("ENOENT"), St)
     ELSE IF "D" \in c.fl THEN Out(RUndef("O_CREAT with O_DIRECTORY"), St)
+    ELSE IF fd = -2 THEN Out(RErr("EMFILE"), St)              \* and no file is created
     ELSE IF fd = -1 \/ oid = 0 THEN Out(RUndef("descriptor bound"), St)
     ELSE LET St1 == [St EXCEPT !.node[w.p] = NodeReg(<<>>, 438 & (511 - St.um))]
          IN Out(RFd(fd), NewFile(St1, c, w.p, fd, oid))
@@ -247,9 +258,18 @@ ApOpen(St, c) ==
       THEN Out(RUndef("blocks: FIFO without writer"), St)
     ELSE IF n.k = "fifo" /\ "N" \notin c.fl /\ c.acc = "W" /\ ~Readers(St, 0)
       THEN Out(RUndef("blocks: FIFO without reader"), St)
+    ELSE IF fd = -2 THEN Out(RErr("EMFILE"), St)              \* and nothing is truncated
     ELSE IF fd = -1 \/ oid = 0 THEN Out(RUndef("descriptor bound"), St)
     ELSE LET St1 == IF "T" \in c.fl /\ n.k = "reg" THEN [St EXCEPT !.node[w.p].data = <<>>] ELSE St
          IN Out(RFd(fd), NewFile(St1, c, w.p, fd, oid))
+
+\* POSIX does not order error conditions: with no descriptor available AND
+\* another reason to fail, which errno is reported is not determined
+ApOpen(St, c) ==
+  LET a == ApOpen0(St, c) IN
+  IF LowestFree(St, 0) = -2 /\ a.r.k = "err" /\ a.r.s # "EMFILE"
+    THEN Out(RUndef("no descriptor available and another error"), St)
+  ELSE a
 
 \* Close::close: "returns Ok(()) when the FD is already closed".
 ApClose(St, c) ==
@@ -259,8 +279,11 @@ ApClose(St, c) ==
 \* fcntl(F_DUPFD / F_DUPFD_CLOEXEC)
 ApDup(St, c) ==
   IF ~IsOpen(St, c.fd) THEN Out(RErr("EBADF"), St)
+  \* "[EINVAL] cmd is F_DUPFD and arg is ... greater than or equal to {OPEN_MAX}"
+  ELSE IF LimSet(St) /\ c.min >= St.lim THEN Out(RErr("EINVAL"), St)
   ELSE LET fd == LowestFree(St, c.min) IN
-    IF fd = -1 THEN Out(RUndef("descriptor bound"), St)
+    IF fd = -2 THEN Out(RErr("EMFILE"), St)
+    ELSE IF fd = -1 THEN Out(RUndef("descriptor bound"), St)
     ELSE Out(RFd(fd), [St EXCEPT !.fds[fd] = [o |-> St.fds[c.fd].o, cx |-> c.cx]])
 
 \* dup2: "If fildes is a valid file descriptor and is equal to fildes2, dup2()
@@ -268,18 +291,21 @@ ApDup(St, c) ==
 ApDup2(St, c) ==
   IF ~IsOpen(St, c.fd) THEN Out(RErr("EBADF"), St)
   ELSE IF c.fd = c.to THEN Out(RFd(c.to), St)
+  \* "[EBADF] ... fildes2 is negative or greater than or equal to {OPEN_MAX}"
+  ELSE IF LimSet(St) /\ c.to >= St.lim THEN Out(RErr("EBADF"), St)
   ELSE Out(RFd(c.to), GC([St EXCEPT !.fds[c.to] = [o |-> St.fds[c.fd].o, cx |-> FALSE]]))
 
 \* pipe: the two lowest available descriptors; O_NONBLOCK and FD_CLOEXEC clear.
 ApPipe(St, c) ==
   LET r   == LowestFree(St, 0)
-      w   == IF r = -1 THEN -1 ELSE LowestFree(St, r + 1)
+      w   == IF r < 0 THEN r ELSE LowestFree(St, r + 1)
       o1  == FreeOfdId(St)
       o2  == IF o1 = 0 THEN 0
              ELSE LET free == {i \in OfdIds : St.ofd[i].t = "free" /\ i # o1}
                   IN IF free = {} THEN 0 ELSE CHOOSE i \in free : \A j \in free : i <= j
       q   == FreePipeId(St)
-  IN IF r = -1 \/ w = -1 \/ o1 = 0 \/ o2 = 0 \/ q = 0 THEN Out(RUndef("descriptor bound"), St)
+  IN IF r = -2 \/ w = -2 THEN Out(RErr("EMFILE"), St)           \* two are needed; none is kept
+     ELSE IF r = -1 \/ w = -1 \/ o1 = 0 \/ o2 = 0 \/ q = 0 THEN Out(RUndef("descriptor bound"), St)
      ELSE Out(RPipe(r, w),
               [St EXCEPT !.ofd[o1] = [FreeOfd EXCEPT !.t = "pipe", !.pi = q, !.r = TRUE],
                          !.ofd[o2] = [FreeOfd EXCEPT !.t = "pipe", !.pi = q, !.w = TRUE],
@@ -290,7 +316,8 @@ ApPipe(St, c) ==
 \* open_tmpfile: an anonymous regular file open for reading and writing.
 ApTmp(St, c) ==
   LET fd == LowestFree(St, 0)  oid == FreeOfdId(St) IN
-  IF fd = -1 \/ oid = 0 THEN Out(RUndef("descriptor bound"), St)
+  IF fd = -2 THEN Out(RErr("EMFILE"), St)
+  ELSE IF fd = -1 \/ oid = 0 THEN Out(RUndef("descriptor bound"), St)
   ELSE Out(RFd(fd), [St EXCEPT !.ofd[oid] = [FreeOfd EXCEPT !.t = "tmp", !.r = TRUE, !.w = TRUE],
                                !.fds[fd] = [o |-> oid, cx |-> FALSE]])
 
@@ -406,6 +433,12 @@ ApStatAt(St, c) ==
     [] w.st = "out"     -> Out(RUndef("outside the universe"), St)
     [] OTHER            -> Out(StatOf(St.node[w.p]), St)
 
+\* setrlimit(RLIMIT_NOFILE, soft = n, hard unchanged) / getrlimit: open
+\* descriptors at or above the new limit stay open
+ApSetrlimit(St, c) == Out(ROk, [St EXCEPT !.lim = c.n])
+ApGetrlimit(St, c) == IF LimSet(St) THEN Out(R("lim", St.lim, "", <<>>), St)
+                      ELSE Out(RUndef("limit of the environment"), St)
+
 ApUmask(St, c) == Out(RMode(St.um), [St EXCEPT !.um = c.m])
 
 ApChdir(St, c) ==
@@ -428,6 +461,8 @@ ApOpendir(St, c) ==
     [] w.st = "missing" -> Out(RErr("ENOENT"), St)
     [] w.st = "out"     -> Out(RUndef("outside the universe"), St)
     [] OTHER -> IF St.node[w.p].k # "dir" THEN Out(RErr("ENOTDIR"), St)
+                \* opendir "may fail" with EMFILE when no descriptor is available
+                ELSE IF LowestFree(St, 0) = -2 THEN Out(RUndef("opendir without a free descriptor"), St)
                 ELSE Out(REnts({p[Len(p)] : p \in {q \in Universe : q # <<>> /\ Parent(q) = w.p
                                                                    /\ St.node[q].k # "none"}}), St)
 
@@ -493,6 +528,8 @@ Apply(St, c) ==
     [] c.op = "sigmask" -> ApSigmask(St, c)
     [] c.op = "kill"    -> ApKill(St, c)
     [] c.op = "caught"  -> ApCaught(St, c)
+    [] c.op = "setrlimit" -> ApSetrlimit(St, c)
+    [] c.op = "getrlimit" -> ApGetrlimit(St, c)
 
 ---------------------------------------------------------------------------
 (* Alphabets of the generator themes.  Every theme keeps the set of calls  *)
@@ -573,6 +610,15 @@ CallsApp(St) ==
   \cup { [op |-> "lseek", fd |-> x, wh |-> "SET", off |-> 0] : x \in FdArgs(St, FALSE) }
   \cup { [op |-> "close", fd |-> x] : x \in FdArgs(St, FALSE) }
 
+\* descriptor allocation under a lowered RLIMIT_NOFILE
+CallsLim(St) ==
+     { [op |-> "setrlimit", n |-> n] : n \in {3, 4, 5} }
+  \cup { [op |-> "getrlimit"], [op |-> "pipe"], [op |-> "tmp"], [op |-> "opendir", path |-> <<"d">>],
+         COpen(<<"f">>, "R", {}), COpen(<<"n">>, "W", {"C", "T"}), COpen(<<"f">>, "W", {"C", "T"}), COpen(<<"n">>, "R", {}) }
+  \cup { [op |-> "dup", fd |-> x, min |-> m, cx |-> FALSE] : x \in FdArgs(St, TRUE), m \in {0, 3, 5} }
+  \cup { c \in { [op |-> "dup2", fd |-> x, to |-> y] : x \in FdArgs(St, TRUE), y \in 3 .. MaxFd } : c.fd # c.to }
+  \cup { [op |-> "close", fd |-> x] : x \in FdArgs(St, FALSE) }
+
 CallsPipe(St) ==
      { [op |-> "pipe"] }
   \cup { COpen(<<"p">>, m[1], m[2]) : m \in { <<"R", {"N"}>>, <<"W", {"N"}>>, <<"R", {}>>, <<"W", {}>>, <<"W", {"C", "T"}>> } }
@@ -602,6 +648,7 @@ Calls(St) ==
          [] Theme = "path" -> CallsPath(St)
          [] Theme = "mode" -> CallsMode(St)
          [] Theme = "app"  -> CallsApp(St)
+         [] Theme = "lim"  -> CallsLim(St)
          [] Theme = "pipe" -> CallsPipe(St)
          [] Theme = "sig"  -> CallsSig(St)
 
@@ -670,14 +717,17 @@ TargetOf(St, c) ==
 \* (distinct states are extended along ONE history each, so the effect of a
 \* call must be looked at right after it): the sizes of the regular files by
 \* absolute name and the offset of the descriptor the call used.
+AllocOps == {"open", "dup", "dup2", "pipe", "tmp", "opendir"}
 PostCalls(St2, c) ==
   << [op |-> "statat", path |-> <<"/", "f">>, follow |-> TRUE],
      [op |-> "statat", path |-> <<"/", "n">>, follow |-> TRUE] >>
   \o (IF "fd" \in DOMAIN c /\ IsOpen(St2, c.fd) THEN << [op |-> "lseek", fd |-> c.fd, wh |-> "CUR", off |-> 0] >> ELSE <<>>)
+  \* after a call that allocates descriptors, successful or not: the table
+  \o (IF c.op \in AllocOps THEN [i \in 1 .. (MaxFd - 2) |-> [op |-> "getfd", fd |-> i + 2]] ELSE <<>>)
 
 Post(St, c) ==
   LET a == Apply(St, c) IN
-  IF a.r.k = "undef" \/ a.s = St \/ ~a.s.alive THEN <<>>
+  IF a.r.k = "undef" \/ (a.s = St /\ c.op \notin AllocOps) \/ ~a.s.alive THEN <<>>
   ELSE LET pcs == PostCalls(a.s, c) IN [i \in 1 .. Len(pcs) |-> [c |-> pcs[i], r |-> Apply(a.s, pcs[i]).r]]
 
 Fan == { [c |-> c, r |-> Apply(S, c).r, t |-> TargetOf(S, c), post |-> Post(S, c)] : c \in Calls(S) }
